@@ -41,8 +41,9 @@ class ConcreteCtx:
         return self.conv.get(name, False)
 
 
-def run_scenario(sc):
-    """the real engine on the scenario's sample-size / convergence answers and concrete payoffs; returns (stats, registry, criteria)"""
+def run_scenario(sc, keep_on_abort=False):
+    """the real engine on the scenario's sample-size / convergence answers and concrete payoffs; returns (stats, registry, criteria);
+    with keep_on_abort a run cut off by the pass limit returns (None, registry, criteria) instead of raising"""
     ctxc = ConcreteCtx({k: int(v) for k, v in sc["ns"].items()}, {k: bool(v) for k, v in sc["conv"].items()})
     reg = Registry(ctxc)
     crit = ScriptedCriteria(ctxc, sc["bound"], offset=sc.get("offset", 0))
@@ -53,10 +54,15 @@ def run_scenario(sc):
     cfg.initialisation_seed = lambda multiprocessing=False: None
     eng = ME.Engine(cfg, ScriptedCoupling(reg, 0.9))
     prod = ScriptedProduct(2.0)
-    if sc.get("fixed"):
-        stats = eng.price_with_constant_mc_paths_and_level(prod)
-    else:
-        stats = eng.price(prod, 0.1)
+    try:
+        if sc.get("fixed"):
+            stats = eng.price_with_constant_mc_paths_and_level(prod)
+        else:
+            stats = eng.price(prod, 0.1)
+    except PathAbort:
+        if not keep_on_abort:
+            raise
+        stats = None
     return stats, reg, crit
 
 
@@ -182,7 +188,12 @@ def replay_fixed_crash(sc):
 
 
 def h_fixed(ctx, il, n0, lm):
-    eng, prod, reg, crit, df, notional = make_engine(ctx, il, n0, lm, 1)
+    try:
+        eng, prod, reg, crit, df, notional = make_engine(ctx, il, n0, lm, 1)
+    except ValueError:
+        # an inconsistent configuration (initial_level > maximum_level) may be rejected up front
+        ctx.prove("C05.fixed_level_run_completes", lm < il, info={"il": il, "lm": lm, "rejected": True})
+        return
     rp = (replay_fixed_crash, _scenario(ctx, crit, il, n0, lm, 1, fixed=True))
     try:
         stats = eng.price_with_constant_mc_paths_and_level(prod)
